@@ -2851,12 +2851,20 @@ class Network:
         path = self.path
         path_segment = []
         recycle_units = network.get_recycle_units()
+        absorbed = []
         for i in path[index:]:
             if isinstance(i, Network):
                 if not i.units.isdisjoint(recycle_units):
                     network.join_recycle_network(i)
+                    absorbed.append(i)
             elif i in recycle_units:
                 path_segment.append(i)
+        # A subnetwork that was merged into the new network must not stay in this path as well
+        for i in absorbed:
+            for n, j in enumerate(path):
+                if j is i:
+                    del path[n]
+                    break
         linear_network = Network(path_segment)
         if linear_network.units.difference(network.units):
             if len(path_segment) > 1 and path_segment[0] is path_segment[-1]: path_segment.pop()
